@@ -3,6 +3,7 @@ package harness
 // C15 — registry: exclusive type-checked registration, faithful lookup and service info.
 
 import (
+	"context"
 	"fmt"
 	"reflect"
 	"sort"
@@ -29,6 +30,8 @@ type c15Op struct {
 	Meta       string      `json:",omitempty"` // "", "str:<s>", "int", "nil"
 	Typed      bool        `json:",omitempty"` // HandlerType is a real interface with a method
 	BadHandler bool        `json:",omitempty"` // handler does not implement HandlerType (only with Typed)
+	Iface2     bool        `json:",omitempty"` // with Typed: the service's HandlerType is a second interface, which the usual (valid elsewhere) handler type does not implement
+	Wrapped    bool        `json:",omitempty"` // the registration goes through grpchan.WithInterceptor(reg, pass-through interceptors)
 	NilHandler bool        `json:",omitempty"` // handler is a nil pointer of the right type (stateless implementations; grpc.Server accepts it)
 }
 
@@ -41,6 +44,12 @@ type c15Iface interface{ VerifMarker() }
 type c15Good struct{ id int }
 
 func (*c15Good) VerifMarker() {}
+
+// a second service interface and its implementation
+type c15Iface2 interface{ VerifMarker2() }
+type c15Good2 struct{ id int }
+
+func (*c15Good2) VerifMarker2() {}
 
 type c15Bad struct{ id int }
 
@@ -62,7 +71,9 @@ func c15Meta(m string) interface{} {
 
 func (op *c15Op) desc() *grpc.ServiceDesc {
 	d := &grpc.ServiceDesc{ServiceName: op.Name, Metadata: c15Meta(op.Meta)}
-	if op.Typed {
+	if op.Typed && op.Iface2 {
+		d.HandlerType = (*c15Iface2)(nil)
+	} else if op.Typed {
 		d.HandlerType = (*c15Iface)(nil)
 	} else {
 		d.HandlerType = (*svcIface)(nil)
@@ -79,6 +90,30 @@ func (op *c15Op) desc() *grpc.ServiceDesc {
 type c15Entry struct {
 	desc    *grpc.ServiceDesc
 	handler interface{}
+	wrapped bool // registered through WithInterceptor: the registry holds a decorated copy of desc
+}
+
+// c15SameDesc: the registry's description is the registered one, or (wrapped) a decorated copy that says the same.
+func c15SameDesc(got *grpc.ServiceDesc, e c15Entry) bool {
+	if !e.wrapped {
+		return got == e.desc
+	}
+	if got == nil || got.ServiceName != e.desc.ServiceName || got.HandlerType != e.desc.HandlerType || got.Metadata != e.desc.Metadata ||
+		len(got.Methods) != len(e.desc.Methods) || len(got.Streams) != len(e.desc.Streams) {
+		return false
+	}
+	for i := range got.Methods {
+		if got.Methods[i].MethodName != e.desc.Methods[i].MethodName || got.Methods[i].Handler == nil {
+			return false
+		}
+	}
+	for i := range got.Streams {
+		gs, es := got.Streams[i], e.desc.Streams[i]
+		if gs.StreamName != es.StreamName || gs.ClientStreams != es.ClientStreams || gs.ServerStreams != es.ServerStreams || gs.Handler == nil {
+			return false
+		}
+	}
+	return true
 }
 
 func methodInfoKey(mi grpc.MethodInfo) string {
@@ -153,14 +188,14 @@ func propC15(c c15Case) *Outcome {
 					}
 					continue
 				}
-				if d != e.desc || h != e.handler {
+				if !c15SameDesc(d, e) || h != e.handler {
 					return fmt.Sprintf("step %d: QueryService(%q) returned a different descriptor/handler than registered", step, n)
 				}
 			}
 			seen := map[string]int{}
 			hm.ForEach(func(d *grpc.ServiceDesc, h interface{}) {
 				seen[d.ServiceName]++
-				if e, ok := model[d.ServiceName]; !ok || e.desc != d || e.handler != h {
+				if e, ok := model[d.ServiceName]; !ok || !c15SameDesc(d, e) || e.handler != h {
 					seen["!mismatch:"+d.ServiceName]++
 				}
 			})
@@ -194,6 +229,10 @@ func propC15(c c15Case) *Outcome {
 		d := op.desc()
 		var h interface{}
 		switch {
+		case op.Typed && op.Iface2 && op.BadHandler:
+			h = &c15Good{id: i} // perfectly good for the other interface (and possibly approved for it earlier), not for this one
+		case op.Typed && op.Iface2:
+			h = &c15Good2{id: i}
 		case op.Typed && op.BadHandler && i%2 == 1:
 			h = &c15BadSig{id: i}
 		case op.Typed && op.BadHandler:
@@ -206,9 +245,20 @@ func propC15(c c15Case) *Outcome {
 		}
 		_, dup := model[op.Name]
 		mustRefuse := dup || (op.Typed && op.BadHandler)
+		target := reg
+		if op.Wrapped {
+			o.class("registered-through-WithInterceptor")
+			target = grpchan.WithInterceptor(reg,
+				func(ctx context.Context, req interface{}, _ *grpc.UnaryServerInfo, h grpc.UnaryHandler) (interface{}, error) {
+					return h(ctx, req)
+				},
+				func(srv interface{}, ss grpc.ServerStream, _ *grpc.StreamServerInfo, h grpc.StreamHandler) error {
+					return h(srv, ss)
+				})
+		}
 		panicked := func() (p interface{}) {
 			defer func() { p = recover() }()
-			reg.RegisterService(d, h)
+			target.RegisterService(d, h)
 			return nil
 		}()
 		if mustRefuse {
@@ -221,7 +271,7 @@ func propC15(c c15Case) *Outcome {
 			if panicked != nil {
 				return o.failf("%s: step %d: valid registration of %q panicked: %v", c.Target, i, op.Name, panicked)
 			}
-			model[op.Name] = c15Entry{d, h}
+			model[op.Name] = c15Entry{d, h, op.Wrapped}
 			ref.RegisterService(d, h)
 		}
 		if why := check(i); why != "" {
@@ -252,7 +302,9 @@ func genC15(t *rapid.T) c15Case {
 			op.Meta = rapid.SampledFrom([]string{"", "int", "file.proto", "x/y.proto"}).Draw(t, "meta")
 			op.Typed = rapid.Bool().Draw(t, "typed")
 			op.BadHandler = op.Typed && rapid.IntRange(0, 3).Draw(t, "bad") == 0
-			op.NilHandler = !op.BadHandler && rapid.IntRange(0, 5).Draw(t, "nilhandler") == 0
+			op.Iface2 = op.Typed && rapid.IntRange(0, 2).Draw(t, "iface2") == 0
+			op.NilHandler = !op.BadHandler && !op.Iface2 && rapid.IntRange(0, 5).Draw(t, "nilhandler") == 0
+			op.Wrapped = rapid.IntRange(0, 3).Draw(t, "wrapped") == 0
 		}
 		c.Ops = append(c.Ops, op)
 	}
@@ -263,6 +315,7 @@ func init() { registerReplay("C15", propC15) }
 
 const c15Rule = "rapid-generated histories (1..12 ops: register valid / duplicate name / handler not implementing HandlerType, query, iterate, info) over HandlerMap, inprocgrpc.Channel and httpgrpc.Server with generated descriptors (0..5 unary + 0..5 streaming methods, all flag combinations, string/int/nil metadata); " +
 	"invariant after every step: QueryService agrees with a model map on every name seen and on near misses (identical pointers or nil,nil), ForEach visits the model exactly once each, GetServiceInfo equals (methods as multisets) what a fresh grpc.Server given the same valid registrations reports; refused registrations panic and change nothing; " +
+	"also generated since the seeded rounds: handlers with the right method name and a wrong signature, near-miss names (.X, X., /X), typed-nil handlers; " +
 	"non-trivial = history ending with >=2 services or containing a refused registration; distinct by case hash"
 
 func TestC15(t *testing.T) {
